@@ -35,6 +35,9 @@ var c11Keys = []string{"a", "b", "c", "d"}
 var c11SpacedKeys = []string{"a", "a ", " a", "b", "b\t", "c", "c\u00a0", "\nd"}
 
 // keys that look like list subscripts
+// a namespace-like prefix: "ns:a" and "a" are different keys, neither stands for the other
+var c11ColonKeys = []string{"a", "ns:a", "b", "x:b", "c", "dc:c", "d", "ns:d"}
+
 var c11NumericKeys = []string{"a", "0", "1", "b", "00", "c", "-1", "2"}
 
 func genMapsOnly(t *rapid.T, d int) map[string]interface{} {
@@ -177,6 +180,8 @@ func genC11(t *rapid.T) CaseC11 {
 		c11Keys = c11SpacedKeys
 	case 1:
 		c11Keys = c11NumericKeys
+	case 2:
+		c11Keys = c11ColonKeys
 	}
 	c := CaseC11{Map: genMapsOnly(t, 3)}
 	c11Deep = 0
